@@ -3,7 +3,7 @@
   charge gain agree; rates are 0 at vacant stations; peak = max aggregate current; total energy
   = integral of aggregate power.
 
-  Property theorems only (helpers: `Lemmas/LedgerBattery`, `LedgerSim`, `LedgerInv`, `LedgerStep`, `LedgerTotal`, `LedgerInterval`, `LedgerRerun`, `LedgerStatic`, `LedgerResume`).
+  Property theorems only (helpers: `Lemmas/LedgerBattery`, `LedgerSim`, `LedgerInv`, `LedgerStep`, `LedgerTotal`, `LedgerInterval`, `LedgerRerun`, `LedgerStatic`, `LedgerResume`, `LedgerResumeInterval`).
   Carrier: any linear ordered field `K`; `HasExp K` is an ARBITRARY function — the ledger of the
   two-stage battery is pure algebra on the dsoc value the code returns.
   Simulator-level theorems are about the full model `Acn.Sim` (the one the driver executes
@@ -18,6 +18,7 @@ import AcnProofs.Lemmas.LedgerBoundsRun
 import AcnProofs.Lemmas.LedgerRerun
 import AcnProofs.Lemmas.LedgerStatic
 import AcnProofs.Lemmas.LedgerResume
+import AcnProofs.Lemmas.LedgerResumeInterval
 
 set_option linter.unusedSectionVars false
 set_option linter.unusedVariables false
@@ -458,6 +459,64 @@ theorem total_energy_eq_integral_resumed (cfg : Cfg K) (hn : StationsNodup cfg)
         (∑ i ∈ range cfg.stations.length, volt cfg i * s.rates.get i τ / 1000) * (cfg.period / 60) :=
   (resumed_ledger hn h).total hn hid
 
+/-- THE STATEMENT AS THE PROPERTY WORDS IT, for a resumed simulation: under C01's hypothesis `Valid`, at every state a
+    simulator object goes through while `run()` is aborted and called again any number of times (`Resumed`),
+    delivered_x = Σ over the periods `τ` simulated so far with `arrival_x ≤ τ < departure_x` of
+    `rates[station_x][τ] · V / 1000 · (period / 60)` — the aborted period is simulated, and counted, exactly once -/
+theorem session_energy_interval_resumed (cfg : Cfg K) (hn : StationsNodup cfg) (hv : EventCore.Valid cfg.core)
+    (s : State K) (h : Resumed cfg s) (id : String) (e0 e : Ev K)
+    (h0 : evIn cfg.evs id = some e0) (he : evIn s.evs id = some e) :
+    e.delivered - e0.delivered =
+      ∑ τ ∈ range s.core.iter,
+        if e0.arrival ≤ (τ : Int) ∧ (τ : Int) < e0.departure
+        then s.rates.get (stationIndex cfg e0.station) τ * volt cfg (stationIndex cfg e0.station) / 1000
+              * (cfg.period / 60)
+        else 0 := by
+  have hR := resumed_rinv hn hv h
+  rw [hR.led.session_single hn h0 he]
+  apply Finset.sum_congr rfl
+  intro τ hτ
+  have := occAt_iff_interval_of_log hn hv hR.log h0 τ
+  simp only [Finset.mem_range.1 hτ, true_and] at this
+  exact if_congr this rfl rfl
+
+/-- … and once the event queue of the resumed simulation is empty (every `run()` that returns leaves it so): the sum
+    is over exactly the interval `[arrival_x, departure_x)` -/
+theorem session_energy_interval_complete_resumed (cfg : Cfg K) (hn : StationsNodup cfg)
+    (hv : EventCore.Valid cfg.core) (s : State K) (h : Resumed cfg s) (hdone : s.core.pending = [])
+    (id : String) (e0 e : Ev K) (h0 : evIn cfg.evs id = some e0) (he : evIn s.evs id = some e) :
+    e.delivered - e0.delivered =
+      ∑ τ ∈ Finset.Ico e0.arrival.toNat e0.departure.toNat,
+        s.rates.get (stationIndex cfg e0.station) τ * volt cfg (stationIndex cfg e0.station) / 1000
+          * (cfg.period / 60) := by
+  rw [session_energy_interval_resumed cfg hn hv s h id e0 e h0 he, ← Finset.sum_filter]
+  have hmem : e0 ∈ cfg.evs := List.mem_of_find?_eq_some h0
+  have hx0 : sessionOf e0 ∈ cfg.core.sessions := List.mem_map.2 ⟨e0, hmem, rfl⟩
+  have hdep : e0.departure ≤ (s.core.iter : Int) := (resumed_rinv hn hv h).dep_le_iter hv hdone _ hx0
+  have harr : 0 ≤ e0.arrival := hv.arr_nonneg _ hx0
+  apply Finset.sum_congr _ (fun _ _ => rfl)
+  ext τ
+  simp only [Finset.mem_filter, Finset.mem_range, Finset.mem_Ico]
+  omega
+
+/-- a resumed simulation: a station's recorded rate is 0 in every period that lies in no session's connection
+    interval -/
+theorem rates_zero_outside_interval_resumed (cfg : Cfg K) (hn : StationsNodup cfg) (hv : EventCore.Valid cfg.core)
+    (s : State K) (h : Resumed cfg s) (i τ : Nat) (st : Station K) (hst : cfg.stations[i]? = some st)
+    (hout : ¬ ∃ x ∈ cfg.core.sessions, x.station = st.id ∧ x.arrival ≤ (τ : Int) ∧ (τ : Int) < x.departure) :
+    s.rates.get i τ = 0 := by
+  have hR := resumed_rinv hn hv h
+  by_cases hτ : τ < s.core.iter
+  · apply hR.led.vacant τ i hτ (List.getElem?_eq_some_iff.1 hst).1
+    cases ho : occAt s.occLog τ i with
+    | none => rfl
+    | some id =>
+      obtain ⟨_, st', x, hst', m1, _, m3, m4, m5⟩ := (hR.log τ i id).1 ho
+      rw [hst] at hst'
+      obtain rfl : st = st' := by simpa using hst'
+      exact absurd ⟨x, m1, m3, m4, m5⟩ hout
+  · exact hR.led.future τ i (by omega)
+
 /-! ### non-vacuity (full model over ℚ; `exp` is never called by the ideal / stepwise laws) -/
 
 /-- ideal battery: 32 A at 1000 V for 60 min offers 32 kWh, the battery accepts its maximum 7 kW -/
@@ -597,6 +656,10 @@ example :
     (Sim.run exCfg (fun _ => .ok [("A", [16]), ("B", [33])]) 8 (Sim.init exCfg)).1.evs.map (·.delivered) = [7, 0, 0] ∧
     (Sim.run exCfg (fun _ => .ok [("A", [16]), ("B", [33])]) 8 (Sim.init exCfg)).1.rates.rows = [[0, 0, 0], [0, 0, 0]] ∧
     (Sim.run exCfg (fun _ => .ok [("A", [16]), ("B", [33])]) 8 (Sim.init exCfg)).1.core.iter = 0 := by
+  decide +kernel
+
+/-- hypothesis `pending = []` of `session_energy_interval_complete_resumed` on the resumed run above -/
+example : (Sim.run exCfg exSched 8 (Sim.run exCfg (exCrash 2) 8 (Sim.init exCfg)).1).1.core.pending = [] := by
   decide +kernel
 
 end simex
